@@ -427,10 +427,8 @@ func cmdCheck(args []string) {
 		}
 	}
 	sort.Strings(vacuous)
-	if *only == "" {
-		for _, v := range vacuous {
-			inconclusive = append(inconclusive, "vacuity witness not reached: "+v)
-		}
+	for _, v := range vacuous {
+		inconclusive = append(inconclusive, "vacuity witness not reached: "+v)
 	}
 	for _, s := range inconclusive {
 		lines = append(lines, fmt.Sprintf("INCONCLUSIVE property=%s reason=%s", id, s))
